@@ -187,6 +187,14 @@ def register(T, repo):
         return And(
             Implies(Not(isverb), And(zbool(r.fields['pos_fix']),
                                      p == zint(A['start']))),
+            # C08: an unterminated \\verb costs at most the rest of its own
+            # line -- the scanner resumes before the first line break after
+            # the macro, no later text is skipped
+            Implies(Not(isverb), And(
+                pos_of(A) >= zint(A['start']) + 5,
+                pos_of(A) <= zint(src.ln),
+                forall(zint(A['start']), pos_of(A),
+                       lambda k: src.at(k) != 10))),
             # issue 126: the verbatim token sits on its first content
             # character, right after the delimiter
             Implies(isverb, And(
@@ -200,7 +208,8 @@ def register(T, repo):
     helper('scan_verb', entry_pos=None,
            requires=[('after-verb', lambda A: And(
                pos_of(A) == zint(A['start']) + 5,
-               pos_of(A) <= zint(A['src'].ln)))],
+               pos_of(A) <= zint(A['src'].ln),
+               sym.seq_startswith(A['src'], '\\verb', A['start'])))],
            ensures=[('verb-token', verb_post)],
            classes=[D + 'VerbatimToken', D + 'TextToken'])
 
